@@ -147,7 +147,7 @@ def check(ctx, case):
             ctx.count("frames_vs_scene")
             H, W = case["sizes"][key[0]]
             eff = e2e.eff_scale_for(H, W, max_hw)
-            tol = on.tolerance(2 if case["model"] == "topdown" else case["stride"], 1.0, eff)
+            tol = e2e.tol(2 if case["model"] == "topdown" else case["stride"], H, W, max_hw, 1.0)
             if case["model"] == "single":
                 if len(got) != 1:
                     ctx.violation("record-count", f"single-instance: frame {key} has {len(got)} records in the solo run", small)
